@@ -1,15 +1,24 @@
 use std::cmp;
 use std::collections::{BinaryHeap, HashMap};
 use std::mem;
+#[cfg(not(may_verif))]
 use std::sync::atomic::{AtomicUsize, Ordering};
+#[cfg(may_verif)]
+use crate::verif::atomic::{AtomicUsize, Ordering};
 use std::sync::Arc;
+#[cfg(not(may_verif))]
 use std::thread;
+#[cfg(may_verif)]
+use crate::verif::thread;
 use std::time::{Duration, Instant};
 
 use may_queue::mpsc::Queue;
 use may_queue::mpsc_list_v1::Entry;
 use may_queue::mpsc_list_v1::Queue as TimeoutQueue;
+#[cfg(not(may_verif))]
 use parking_lot::{Mutex, RwLock};
+#[cfg(may_verif)]
+use crate::verif::pl::{Mutex, RwLock};
 
 use crate::sync::AtomicOption;
 
@@ -24,6 +33,10 @@ fn get_instant() -> &'static Instant {
 // get the current wall clock in ns
 #[inline]
 pub fn now() -> u64 {
+    #[cfg(may_verif)]
+    if let Some(t) = crate::verif::now() {
+        return t;
+    }
     // we need a Monotonic Clock here
     get_instant().elapsed().as_nanos() as u64
 }
